@@ -395,10 +395,21 @@ def run_modifiers(ctx, n):
         tname = rng.choice(list(PATS)); P, pts = PATS[tname]; pt = rng.choice(pts)
         c = rng.choice(cults); M = rng.choice([0, 99, 30, 29, 31, 50, 80, rng.randint(0, 99)])
         tY = rng.choice([2000, 1999, 2100, 1950, 2345, 1900, rng.randint(1801, 2900), 150, 101, 199, 100, 200, 299, rng.randint(100, 400)])   # (templates before year 100 mix year-of-era and absolute year for yy=00: left out)
-        tv_date = LocalDate(tY, rng.randint(1, 12), rng.randint(1, 28))
+        # one template in four lies in the BC era (year-of-era and absolute year differ there: the window is one of years-of-era, and the
+        # era of the parsed value is the template's), in ISO, Gregorian or Julian for the local types
+        bc = it % 4 == 3
+        from pyoda_time import CalendarSystem
+        from pyoda_time.calendars import Era
+        tcal = CalendarSystem.iso if (tname == "Instant" or not bc) else rng.choice([CalendarSystem.iso, CalendarSystem.gregorian, CalendarSystem.julian])
+        def mkdate(yoe):
+            if bc:
+                ctx.count("modifier_bc_templates")
+                return LocalDate(year=yoe, month=rng.randint(1, 12), day=rng.randint(1, 28), calendar=tcal, era=Era.before_common)
+            return LocalDate(yoe, rng.randint(1, 12), rng.randint(1, 28))
+        tv_date = mkdate(tY)
         tv = tv_date if tname == "LocalDate" else (tv_date.at_midnight() if tname == "LocalDateTime" else tv_date.at_midnight().with_offset(Offset.zero).to_instant())
         mods = [("culture", lambda p: p.with_culture(c)), ("two_digit_year_max", lambda p: p.with_two_digit_year_max(M)), ("template", lambda p: p.with_template_value(tv))]
-        case = {"kind": "modifiers", "type": tname, "pattern": pt, "culture": c.name, "max": M, "template_year": tY}
+        case = {"kind": "modifiers", "type": tname, "pattern": pt, "culture": c.name, "max": M, "template_year": tY, "template_era": "BC" if bc else "CE", "calendar": tcal.id}
         try:
             base = P.create_with_invariant_culture(pt)
             built = []
@@ -411,7 +422,7 @@ def run_modifiers(ctx, n):
         cen = tY // 100
         for yy in {0, 99, M, (M + 1) % 100, rng.randrange(100), rng.randrange(100)}:
             y = (cen - 1 if (yy > M and cen > 1) else cen) * 100 + yy
-            d = LocalDate(y, rng.randint(1, 12), rng.randint(1, 28))
+            d = mkdate(y)
             v = d if tname == "LocalDate" else (d.at_midnight().plus_minutes(rng.randrange(1440)) if tname == "LocalDateTime" else d.at_midnight().plus_minutes(rng.randrange(1440)).with_offset(Offset.zero).to_instant())
             ctx.ev(); ctx.count("modifier_chains"); ctx.key(("modifiers", tname, pt, yy > M, cen > 20))
             texts = {}; parsed = {}
@@ -425,7 +436,7 @@ def run_modifiers(ctx, n):
                 V(ctx, f"modifier-order:{tname}", f"{tname} pattern {pt!r}, culture {c.name}, max {M}, template year {tY}: formatting {srepr(v)} depends on the order the modifiers were applied in: {texts}", case)
             bad = {nm: srepr(x) for nm, x in parsed.items() if not (x == v)}
             if bad:
-                V(ctx, f"modifier-two-digit-year:{tname}", f"{tname} pattern {pt!r}, culture {c.name}, two_digit_year_max {M}, template year {tY}: {srepr(v)} (yy={yy}, inside the window) formats as {next(iter(texts.values()))!r} but parses back as {bad}", case)
+                V(ctx, f"modifier-two-digit-year:{tname}", f"{tname} pattern {pt!r}, culture {c.name}, two_digit_year_max {M}, template year {tY}{' BC' if bc else ''} ({tcal.id}): {srepr(v)} (yy={yy}, inside the window) formats as {next(iter(texts.values()))!r} but parses back as {bad}", case)
         q = built[0][1]
         if getattr(q, "two_digit_year_max", M) != M or getattr(q, "template_value", tv) != tv:
             V(ctx, f"modifier-accessors:{tname}", f"two_digit_year_max/template_value accessors report {getattr(q, 'two_digit_year_max', None)!r}/{getattr(q, 'template_value', None)!r}", case)
